@@ -232,6 +232,7 @@ type savedFile struct {
 	data  []byte
 	mode  os.FileMode
 	mtime time.Time
+	link  string // target, when the saved entry is a symlink
 }
 
 type fstat struct {
@@ -275,10 +276,13 @@ type world struct {
 	staticTouched  bool   // src/rules op since the failed build
 	counts         map[string]int
 	builds, cleans int
+	known          map[string]bool // every output path a rule or an op of this history named
+	aged           bool            // the cache records were aged past the expiry in this history
 }
 
 func newWorld(base string) *world {
-	return &world{base: base, saved: map[string]*savedFile{}, maxMtime: map[string]int64{}, counts: map[string]int{}}
+	return &world{base: base, saved: map[string]*savedFile{}, maxMtime: map[string]int64{}, counts: map[string]int{},
+		known: map[string]bool{}}
 }
 
 func must(err error) {
@@ -313,6 +317,8 @@ func (w *world) reset() {
 	}
 	writeWorkspaceFile(w.root)
 	w.rules = nil
+	w.known = map[string]bool{}
+	w.aged = false
 	w.saved = map[string]*savedFile{}
 	w.maxMtime = map[string]int64{}
 	w.failedRule = ""
@@ -399,6 +405,11 @@ func (w *world) barrier() {
 	os.Remove(probe)
 }
 
+func isSymlink(p string) bool {
+	st, err := os.Lstat(p)
+	return err == nil && st.Mode()&os.ModeSymlink != 0
+}
+
 func isDir(p string) bool {
 	st, err := os.Lstat(p)
 	return err == nil && st.IsDir()
@@ -478,12 +489,31 @@ func (w *world) apply(line string) string {
 			rs = append(rs, r)
 		}
 		w.rules = rs
+		for _, r := range rs {
+			if r.kind == "fs" {
+				w.known[r.name+".fileset"] = true
+			}
+		}
 		w.writeRules()
 		return "ok"
 	case ws[0] == "out" && len(ws) >= 3:
 		w.lastKind = "out-" + ws[1]
 		p := w.out(ws[2])
+		w.known[ws[2]] = true
 		switch ws[1] {
+		case "link":
+			if len(ws) != 4 {
+				return "bad-op"
+			}
+			if isDir(p) {
+				return "noop"
+			}
+			must(os.MkdirAll(filepath.Dir(p), 0o700))
+			w.freshWrite(p, func() {
+				os.Remove(p)
+				must(os.Symlink(ws[3], p))
+			})
+			return "ok"
 		case "del":
 			if !exists(p) || isDir(p) {
 				return "noop"
@@ -499,6 +529,9 @@ func (w *world) apply(line string) string {
 				return "noop"
 			}
 			must(os.MkdirAll(filepath.Dir(p), 0o700))
+			if isSymlink(p) {
+				must(os.Remove(p)) // the tamperer replaces the link by a regular file
+			}
 			w.freshWrite(p, func() { must(os.WriteFile(p, bytes.Repeat([]byte{'#'}, int(size)), 0o644)) })
 			return "ok"
 		case "chmod":
@@ -506,7 +539,7 @@ func (w *world) apply(line string) string {
 			if !ok {
 				return "bad-op"
 			}
-			if !exists(p) || isDir(p) {
+			if !exists(p) || isDir(p) || isSymlink(p) {
 				return "noop"
 			}
 			must(os.Chmod(p, os.FileMode(mode)))
@@ -517,9 +550,15 @@ func (w *world) apply(line string) string {
 			}
 			delete(w.saved, ws[2])
 			if st, err := os.Lstat(p); err == nil {
-				data, err := os.ReadFile(p)
-				must(err)
-				w.saved[ws[2]] = &savedFile{data, st.Mode().Perm(), st.ModTime()}
+				if st.Mode()&os.ModeSymlink != 0 {
+					dest, err := os.Readlink(p)
+					must(err)
+					w.saved[ws[2]] = &savedFile{nil, 0, st.ModTime(), dest}
+				} else {
+					data, err := os.ReadFile(p)
+					must(err)
+					w.saved[ws[2]] = &savedFile{data, st.Mode().Perm(), st.ModTime(), ""}
+				}
 				if ns := st.ModTime().UnixNano(); ns > w.maxMtime[p] {
 					w.maxMtime[p] = ns
 				}
@@ -534,13 +573,23 @@ func (w *world) apply(line string) string {
 			}
 			must(os.RemoveAll(p))
 			if s := w.saved[ws[2]]; s != nil {
-				must(os.WriteFile(p, s.data, 0o644))
-				must(os.Chmod(p, s.mode))
-				must(os.Chtimes(p, s.mtime, s.mtime))
+				if s.link != "" {
+					must(os.Symlink(s.link, p))
+					must(lutimes(p, s.mtime.UnixNano()))
+				} else {
+					must(os.WriteFile(p, s.data, 0o644))
+					must(os.Chmod(p, s.mode))
+					must(os.Chtimes(p, s.mtime, s.mtime))
+				}
 				delete(w.saved, ws[2])
 			}
 			return "ok"
 		}
+	case ws[0] == "cache" && len(ws) == 2 && ws[1] == "age":
+		w.lastKind = "cache-age"
+		w.aged = true
+		ageCache(w.root)
+		return "ok"
 	case ws[0] == "build" && len(ws) >= 2:
 		al, ok := kvInt(ws[1:2], "always")
 		if !ok {
@@ -587,22 +636,104 @@ func realBuild(root string, always bool, targets []string) (class string, execd 
 	return "other:" + msg, execd, msg
 }
 
-func cacheCount(root string) int64 {
+type cacheRecord struct {
+	K string `json:"K"`
+	T *struct {
+		Sec  int64
+		Nano int64 `json:",omitempty"`
+	} `json:"T"`
+	B json.RawMessage `json:"B"`
+}
+
+const cacheExpiry = 7 * 24 * time.Hour
+
+// cacheRows reads every record of out/CACHE.
+func cacheRows(root string) (keys []string, recs []*cacheRecord, err error) {
 	f := filepath.Join(root, "out", "CACHE")
 	if !exists(f) {
-		return 0
+		return nil, nil, nil
 	}
 	tables, err := pisces.OpenSqlite3Tables(f)
 	if err != nil {
-		return -1
+		return nil, nil, err
 	}
 	defer tables.DB().Close()
-	kv := tables.NewKV("build_cache")
-	n, err := kv.Count()
+	rows, err := tables.DB().Q("select k, v from build_cache")
+	if err != nil {
+		return nil, nil, err
+	}
+	defer rows.Close()
+	for rows.Next() {
+		var k string
+		var v []byte
+		if err := rows.Scan(&k, &v); err != nil {
+			return nil, nil, err
+		}
+		rec := new(cacheRecord)
+		if err := json.Unmarshal(v, rec); err != nil {
+			return nil, nil, err
+		}
+		keys = append(keys, k)
+		recs = append(recs, rec)
+	}
+	return keys, recs, rows.Err()
+}
+
+// cacheCount is the number of records buildCache.get would still return (not expired).
+func cacheCount(root string) int64 {
+	_, recs, err := cacheRows(root)
 	if err != nil {
 		return -1
 	}
+	var n int64
+	now := time.Now()
+	for _, r := range recs {
+		if r.T != nil && now.Before(time.Unix(r.T.Sec, r.T.Nano).Add(cacheExpiry)) {
+			n++
+		}
+	}
 	return n
+}
+
+// ageCache makes every record eight days older (past the 7-day expiry), in place.
+func ageCache(root string) {
+	keys, recs, err := cacheRows(root)
+	must(err)
+	if len(keys) == 0 {
+		return
+	}
+	tables, err := pisces.OpenSqlite3Tables(filepath.Join(root, "out", "CACHE"))
+	must(err)
+	defer tables.DB().Close()
+	for i, r := range recs {
+		if r.T != nil {
+			r.T.Sec -= 8 * 24 * 3600
+		}
+		bs, err := json.Marshal(r)
+		must(err)
+		_, err = tables.DB().X("update build_cache set v=? where k=?", bs, keys[i])
+		must(err)
+	}
+}
+
+// outFiles lists every non-directory entry under out/ (the cache database aside).
+func outFiles(root string) []string {
+	var out []string
+	base := filepath.Join(root, "out")
+	filepath.Walk(base, func(p string, info os.FileInfo, err error) error {
+		if err != nil || info.IsDir() {
+			return nil
+		}
+		rel, _ := filepath.Rel(base, p)
+		rel = filepath.ToSlash(rel)
+		if strings.HasPrefix(rel, "CACHE") {
+			return nil
+		}
+		out = append(out, rel)
+		return nil
+	})
+	sort.Strings(out)
+	return out
 }
 
 func ruleByName(rs []*ruleDef, n string) *ruleDef {
@@ -858,6 +989,23 @@ func (w *world) buildOp(always bool, targets []string, line string) string {
 		}
 	}
 
+	// ---- oracle: the whole out/ tree: besides the outputs some rule or some tampering step of this
+	// history named (files of removed or unreachable rules stay: reading decision) nothing may appear
+	if obs.class == "ok" {
+		w.counts["oracle:whole-out-tree-checked"]++
+		for _, f := range outFiles(w.root) {
+			ok := w.known[f]
+			for k := range w.known {
+				ok = ok || strings.HasPrefix(f, k+"/")
+			}
+			if !ok {
+				w.fail("stray-file-in-out-tree", fmt.Sprintf(
+					"after a successful build out/ holds %q, which is not an output of any rule (a from-scratch build has no such file)", f))
+				break
+			}
+		}
+	}
+
 	// ---- oracle: a build with nothing changed executes no rule
 	// (after an AlwaysRebuild build too: the ordinary build that follows it finds everything up to date)
 	if obs.class == "ok" {
@@ -872,7 +1020,11 @@ func (w *world) buildOp(always bool, targets []string, line string) string {
 		} else {
 			w.counts["oracle:null-build-checked"]++
 			if c2 != "ok" || len(e2) > 0 {
-				w.fail("null-build-executes", fmt.Sprintf("a second build with nothing changed gave %s and executed %v", c2, e2))
+				key := "null-build-executes"
+				if w.aged {
+					key = "expired-record-never-refreshed"
+				}
+				w.fail(key, fmt.Sprintf("a second build with nothing changed gave %s and executed %v", c2, e2))
 			}
 		}
 	}
